@@ -408,8 +408,44 @@ def check_compbasis(desc):
     return out, {'terms': terms, 'N': [int(b1.N), int(b2.N)]}
 
 
+def check_compbasis_many(desc):
+    """CompositeBasis of three or four bases: offsets of element_dofs, interpolation, and the matrix as bmat of the blocks"""
+    from skfem.assembly import BilinearForm, CellBasis
+    from skfem.assembly.basis.composite_basis import CompositeBasis
+    from skfem.utils import bmat
+    m = O1.make_mesh(desc['mesh'], desc['mseed'])
+    io = desc['intorder']
+    bases = [CellBasis(m, O1.make_elem(sp), intorder=io) for sp in desc['elems']]
+    cb = CompositeBasis(*bases)
+    Mn = len(bases)
+    offs = np.concatenate(([0], np.cumsum([b.N for b in bases])))
+    ref = np.vstack([b.element_dofs + offs[k] for k, b in enumerate(bases)])
+    out = [('compositebasis-offsets', 0.0 if np.array_equal(cb.element_dofs, ref) and int(cb.N) == int(offs[-1]) else float('inf'),
+            {'N': [int(b.N) for b in bases]})]
+    z = [b.basis[0][0] for b in bases]
+    terms = _terms(desc, z, z)
+    f = O1.bilinear_integrand(terms, Mn, False)
+    A = BilinearForm(f).assemble(cb).toarray()
+    blocks = [[None] * Mn for _ in range(Mn)]
+    for a in range(Mn):
+        for b in range(Mn):
+            def fab(u, v, w, a=a, b=b):
+                return f(*_inject(z, b, u), *_inject(z, a, v), w)
+            blocks[a][b] = BilinearForm(fab).assemble(bases[b], bases[a])
+    K = bmat(blocks, 'csr')
+    out.append(('compositebasis-blocks', _rel(A, K.toarray()), None))
+    out.append(('bmat-blocks', 0.0 if list(K.blocks) == [int(x) for x in offs[1:-1]] else float('inf'), None))
+    rng = np.random.default_rng(desc['seed'])
+    x = rng.integers(-8, 9, size=cb.N) / 4.0
+    r = 0.0
+    for (xs, b), w in zip(cb.split(x), cb.interpolate(x)):
+        r = max(r, _fields_equal(w, b.interpolate(xs)))
+    out.append(('compositebasis-interp', r, None))
+    return out, {'terms': terms, 'N': [int(b.N) for b in bases]}
+
+
 CHECKS = {'local': check_local, 'split': check_split, 'block': check_block, 'partition': check_partition,
-          'dotinv': check_dotinv, 'compbasis': check_compbasis}
+          'dotinv': check_dotinv, 'compbasis': check_compbasis, 'compbasis-many': check_compbasis_many}
 
 
 def _key(desc, name):
@@ -419,6 +455,8 @@ def _key(desc, name):
         return 'compositebasis:equal-dofnum'
     if name in ('dot-complex', 'tolocal-facet-sum'):
         return f'coo:{name}'
+    if name == 'compositebasis-offsets':
+        return 'compositebasis:offsets'
     if name == 'compositebasis-element-count':
         return 'compositebasis:accepts-different-element-counts'
     if name in ('N=sum-of-component-N', 'Nbfun=bfun-counts'):
@@ -469,6 +507,12 @@ def fixed_cases():
         k += 1
         out.append({'check': 'compbasis', 'mesh': mesh, 'mseed': 1000 + k, 'seed': 2000 + k, 'intorder': 3, 'tseed': 3000 + k,
                     'nterms': 2, 'eu': eu, 'ev': ev, 'restricted': restricted})
+    for mesh, elems in (('tri-struct', ['ElementTriP2', 'ElementTriP1', 'ElementTriP0']),
+                        ('quad-jiggled', ['ElementQuad1', 'ElementQuad2', 'ElementQuad0', 'ElementQuad1']),
+                        ('tet-struct', ['ElementTetP1', 'ElementTetP0', 'ElementTetP2'])):
+        k += 1
+        out.append({'check': 'compbasis-many', 'mesh': mesh, 'mseed': 1000 + k, 'seed': 2000 + k, 'intorder': 3, 'tseed': 3000 + k,
+                    'nterms': 2, 'elems': elems})
     return out
 
 
